@@ -640,7 +640,17 @@ class C14(Prop):
     for i in range(75 if tier == 'quick' else 750):
       r = rng.fork()
       size = r.randint(4, 7)
-      perm = ['choices', size, [_C0] * size, True, False]
+      if r.chance(0.5):
+        cands = [_C0] * size
+      else:
+        # candidates that carry decision points of their own (pg.permutate([pg.oneof([..]), 'x', pg.floatv(..), 'y']))
+        size = min(size, 5)
+        cands = [r.choice([_C0, _C0, ['space', [['choices', 1, [_C0, _C0, _C0], True, False]]],
+                           ['space', [['float', [0, 0], [1, 0]]]],
+                           ['space', [['choices', 2, [_C0, _C0, _C0], r.chance(0.5), False]]],
+                           ['space', [['choices', 1, [_C0, ['space', [['float', [0, 0], [2, 0]]]]], True, False],
+                                      ['float', [-1, 0], [1, 0]]]]]) for _ in range(size)]
+      perm = ['choices', size, cands, True, False]
       spec = ['space', [perm] + ([gen_point(r, 0)] if r.chance(0.3) else []) + ([perm] if r.chance(0.2) else [])]
       pop = [{'nums': gen_dna(r, spec), 'fit': r.randint(-3, 6)} for _ in range(2)]
       prim = ['prim', r.choice(['recPartiallyMapped', 'recPartiallyMapped', 'recCycle', 'recOrder'])]
@@ -720,8 +730,11 @@ class C14(Prop):
     pop = []
     for _ in range(npop):
       pop.append({'nums': gen_dna(r, spec), 'fit': r.randint(-3, 6)})
-    if pop and r.chance(0.15):
-      pop.append(dict(pop[0]))          # equal DNA values in two different objects
+    if pop and r.chance(0.3):
+      # the same point evaluated twice: equal DNA values in two different objects, other rewards
+      for _ in range(r.randint(1, 2)):
+        src = pop[r.below(len(pop))]
+        pop.insert(r.below(len(pop) + 1), {'nums': list(src['nums']), 'fit': r.randint(-3, 6)})
     mode = r.weighted([(73, 'typed'), (12, 'sloppy'), (15, 'oracle_only')])
     g = ExprGen(r, len(pop), sloppy=(mode == 'sloppy'), oracle_only=(mode == 'oracle_only'))
     e, _ = g.expr(r.weighted([(1, 0), (3, 1), (5, 2), (5, 3), (4, 4)]))
@@ -956,6 +969,7 @@ class C14(Prop):
     ids = {id(d): i for i, d in enumerate(pop)}
     pop_arg = list(pop)
     calls = []
+    combos = []
     out, err = None, None
     orig_call = base.Operation.__call__
 
@@ -977,20 +991,38 @@ class C14(Prop):
           items.append({'nums': nums, 'beliefs': bel})
         log.append(['order', items])
 
+    stack = []
+
     def spy(self_op, inputs, *a, **k):
       cls = type(self_op).__name__
       mod = type(self_op).__module__.rsplit('.', 1)[-1]
       prim = mod in ('mutators', 'selectors', 'recombinators', 'nsga2')
+      if hook and not prim and isinstance(inputs, list):
+        # a combinator: remember what each direct operand returned (for the set-algebra oracle)
+        node = {'op': self_op, 'cls': cls, 'in': list(inputs), 'kids': []}
+        if stack:
+          stack[-1]['kids'].append(node)
+        stack.append(node)
+        try:
+          res = orig_call(self_op, inputs, *a, **k)
+          node['out'] = list(res) if isinstance(res, list) else None
+          return res
+        finally:
+          stack.pop()
+          if cls in ('Difference', 'Intersection', 'Union', 'SymmetricDifference', 'Concatenation'):
+            combos.append(node)
       if not prim or not isinstance(inputs, list):
         return orig_call(self_op, inputs, *a, **k)
       if not hook:
         res = orig_call(self_op, inputs, *a, **k)
         note_set_order(self_op, inputs, res)
         return res
-      rec = {'cls': cls, 'mod': mod, 'op': self_op, 'in': list(inputs),
+      rec = {'cls': cls, 'mod': mod, 'op': self_op, 'in': list(inputs), 'kids': [],
              'in_parent': [getattr(d, 'sym_parent', None) for d in inputs],
              'in_json': [pg.to_json_str(d) if isinstance(d, pg.DNA) else None for d in inputs]}
       calls.append(rec)
+      if stack:
+        stack[-1]['kids'].append(rec)
       try:
         res = orig_call(self_op, inputs, *a, **k)
       except Exception as ex:   # pylint: disable=broad-except
@@ -1046,7 +1078,8 @@ class C14(Prop):
       base.Operation.__call__ = orig_call
       _rec._merge_multi_choice = orig_mm          # pylint: disable=protected-access
     return {'spec': spec, 'pop': pop, 'pop_arg': pop_arg, 'before': before, 'ids': ids, 'log': log,
-            'calls': calls, 'out': out, 'err': err, 'unseeded': unseeded, 'mm_paths': mm_paths}
+            'calls': calls, 'out': out, 'err': err, 'unseeded': unseeded, 'mm_paths': mm_paths,
+            'combos': combos}
 
   def canon_out(self, run):
     if run['err'] is not None:
@@ -1184,6 +1217,11 @@ class C14(Prop):
         in_ids = {id(d) for d in ins}
         if c['mod'] == 'mutators' and any(id(d) in in_ids for d in outs):
           fail('mutator-returns-input:' + c['cls'], '%s returned one of its input objects' % c['cls'])
+    # --- set algebra, as documented: on object identities (`x - y` drops exactly the objects `y` returned) ---
+    for c in run['combos']:
+      f = self.set_algebra_failure(c)
+      if f:
+        fail('set-algebra:' + c['cls'], f)
     # --- whole expression ---
     if [pg.to_json_str(d) for d in run['pop']] != run['before']:
       fail('population-modified', 'the population passed to the expression was modified')
@@ -1312,6 +1350,61 @@ class C14(Prop):
                                    'trace': obs['trace']},
             'oracle': [], 'checks': checks, 'tainted': False, 'n_calls': 0, 'n_draws': obs['draws'],
             'mm_paths': []}
+
+  @staticmethod
+  def set_algebra_failure(c):
+    """Difference / Intersection / Union / SymmetricDifference / Concatenation against their documented
+    meaning on object identities, from what the operands returned in this very call."""
+    ops = list(getattr(c['op'], '_ops', []))
+    outs = []
+    for o in ops:
+      k = [r for r in c['kids'] if r['op'] is o]
+      if len(k) != 1 or k[0].get('out') is None:
+        return None                      # an operand raised or is not an Operation: nothing to compare
+      outs.append(k[0]['out'])
+    if c.get('out') is None or len(outs) < 1:
+      return None
+    got = [id(x) for x in c['out']]
+    ids = [[id(x) for x in o] for o in outs]
+    cls = c['cls']
+    if cls == 'Difference':
+      excl = set(i for o in ids[1:] for i in o)
+      want = [i for i in ids[0] if i not in excl]
+      law = '|x - y| = |x| - |{d in x : d is in y}|'
+    elif cls == 'Intersection':
+      n = len(ids) - 1
+      cnt = {}
+      for o in ids[1:]:
+        for i in o:
+          cnt[i] = cnt.get(i, 0) + 1
+      want = [i for i in ids[0] if cnt.get(i, 0) == n]
+      law = 'x & y keeps the objects of x that y returned'
+    elif cls == 'Union':
+      want, seen = [], set()
+      for o in ids:
+        for i in o:
+          if i not in seen:
+            seen.add(i)
+            want.append(i)
+      law = 'x | y is x followed by the objects of y that x did not return'
+    elif cls == 'SymmetricDifference':
+      where_ = {}
+      for n_, o in enumerate(ids):
+        for i in o:
+          where_.setdefault(i, set()).add(n_)
+      want = [i for o in ids for i in o if len(where_[i]) == 1]
+      law = 'x ^ y keeps the objects returned by exactly one operand'
+    else:
+      want = [i for o in ids for i in o]
+      law = 'x + y is the concatenation'
+    if got != want:
+      pos = {}
+      for o in outs + [c['out']]:
+        for x in o:
+          pos.setdefault(id(x), repr(x))
+      return '%s (by object identity): expected %d objects, got %d; operands returned %s, result %s' % (
+          law, len(want), len(got), [[pos[i] for i in o] for o in ids], [pos[i] for i in got])
+    return None
 
   @staticmethod
   def bad_cuts(op, spec_json):
@@ -1504,6 +1597,9 @@ class C14(Prop):
       h.append('oracle-only(no model part)')
     if out.get('tainted'):
       h.append('tainted-by-F21')
+    nums_ = [json.dumps(ind['nums']) for ind in case['pop']]
+    if len(set(nums_)) < len(nums_):
+      h.append('pop:equal-dna-values-in-distinct-individuals')
     if obs['outcome'] == 'ok':
       n = len(obs['out'])
       h.append('out:%s' % (n if n < 6 else '6+'))
